@@ -425,8 +425,17 @@ func layerGoString(i interface{}, b *bytes.Buffer) {
 	}
 	switch v.Kind() {
 	case reflect.Ptr, reflect.Interface:
+		if v.IsNil() {
+			b.WriteString("nil")
+			return
+		}
 		if v.Kind() == reflect.Ptr {
 			b.WriteByte('&')
+		}
+		if !v.Elem().CanInterface() {
+			// unexported field: cannot be turned back into an interface value
+			fmt.Fprintf(b, "%#v", v.Elem())
+			return
 		}
 		layerGoString(v.Elem().Interface(), b)
 	case reflect.Struct:
